@@ -3,10 +3,11 @@
    Gen/ConfigConv.v (From<SPDC> for SPDCConfig and the From impls it uses, Default impls).  Hand-pinned: Spec/ConfigSpec.v
    (documented spellings, what a type's name states, documented defaults), Spec/ConfigUnits.v (unit table).
    Model: Model/Config.v (try_as_spdc in the code's order with oracles), Model/Regex.v (regex engine). *)
-From Coq Require Import Reals String List Bool ZArith QArith.
+From Coq Require Import Reals Ascii String List Bool ZArith QArith.
+From Flocq Require Import Core.
 From SpdVerif Require Import Base.Rx Base.CfgNumOps Spec.ConfigSpec Gen.ConfigTables Spec.ConfigUnits Model.ConfigTypes Model.Config
   Model.NumInst Model.Regex Model.Names Gen.ConfigConv
-  Proofs.C16_names Proofs.C16_round Proofs.C16_roundtrip Proofs.C16_stable Proofs.C16_defaults Proofs.Regex.
+  Proofs.C16_names Proofs.C16_round Proofs.C16_roundtrip Proofs.C16_stable Proofs.C16_defaults Proofs.Regex Proofs.C16_disjoint Proofs.C16_sigfigs_b64 Gen.ConfigSites Gen.CfgSteps Proofs.CfgSteps_eq.
 Import ListNotations.
 Local Open Scope R_scope.
 
@@ -42,6 +43,28 @@ Theorem C16_pm_parse_sound : forall s t, pm_from_str s = Some t ->
     lower x = letter_of (signal_polarization t) /\ lower y = letter_of (idler_polarization t).
 Proof. exact pm_parse_sound. Qed.
 
+(* the five regular languages of PMType::from_str are pairwise disjoint on ALL byte strings (pm_re d a x y is the shape every
+   compiled table entry has: C16_pm_compiled_shape), so the order of the if-chain is irrelevant: a string parses to t iff SOME
+   entry for t matches it *)
+Theorem C16_pm_compiled_shape :
+  compile_table pm_regex_table =
+  [ (Some {| c_ci := true; c_re := pm_re "0"%char "o"%char "o"%char "o"%char |}, Type0_o_oo);
+    (Some {| c_ci := true; c_re := pm_re "0"%char "e"%char "e"%char "e"%char |}, Type0_e_ee);
+    (Some {| c_ci := true; c_re := pm_re "1"%char "e"%char "o"%char "o"%char |}, Type1_e_oo);
+    (Some {| c_ci := true; c_re := pm_re "2"%char "e"%char "e"%char "o"%char |}, Type2_e_eo);
+    (Some {| c_ci := true; c_re := pm_re "2"%char "e"%char "o"%char "e"%char |}, Type2_e_oe) ].
+Proof. exact pm_compiled_shape. Qed.
+
+Theorem C16_pm_regexes_disjoint : forall d1 a1 x1 y1 t1 d2 a2 x2 y2 t2 w,
+  In (d1, a1, x1, y1, t1) pm_entries -> In (d2, a2, x2, y2, t2) pm_entries ->
+  matches true (pm_re d1 a1 x1 y1) w = true -> matches true (pm_re d2 a2 x2 y2) w = true -> t1 = t2.
+Proof. exact pm_regexes_disjoint. Qed.
+
+Theorem C16_pm_order_irrelevant : forall s t,
+  pm_from_str s = Some t <->
+  exists d a x y, In (d, a, x, y, t) pm_entries /\ matches true (pm_re d a x y) (list_ascii_of_string s) = true.
+Proof. exact pm_from_str_iff. Qed.
+
 Theorem C16_pm_inverse : forall t,
   signal_polarization (pm_inverse t) = idler_polarization t /\ idler_polarization (pm_inverse t) = signal_polarization t /\
   pump_polarization (pm_inverse t) = pump_polarization t /\ pm_inverse (pm_inverse t) = t.
@@ -57,6 +80,26 @@ Proof. exact pol_parses_any_case. Qed.
 
 (* try_as_spdc_steps is SPDCConfig::try_as_spdc after the optional up-front wavelength validation (Props/C17.v: C17_entry):
    try_as_spdc V c = try_as_spdc_steps c whenever the check does not fire. *)
+(* ================================================================================================ the model IS the source *)
+(* The statement-by-statement translation of SPDCConfig::try_as_spdc GENERATED from the source (Gen/CfgSteps.v) equals the model
+   every theorem below is about; likewise the bodies of the helpers it calls.  (try_as_spdc_steps is try_as_spdc after the
+   optional up-front wavelength validation, Props/C17.v: C17_entry.) *)
+Theorem C16_try_as_spdc_is_generated : forall num (o : NumOps num) U K minpos rj (c : spdc_cfg num),
+  gen_try_as_spdc_steps o U K minpos rj c = try_as_spdc_steps o U K minpos rj c.
+Proof. exact gen_try_as_spdc_steps_eq. Qed.
+
+Theorem C16_helpers_are_generated : forall num (o : NumOps num) K minpos,
+  (forall cfg, gen_crystal_of_cfg o cfg = crystal_of_cfg o cfg) /\
+  (forall p cs, gen_pump_of_cfg o p cs = pump_of_cfg o p cs) /\
+  (forall c cs, gen_signal_of_cfg o K c cs = beam_of_cfg o K (signal_polarization (cs_pm cs)) c cs) /\
+  (forall c cs, gen_idler_of_cfg o K c cs = beam_of_cfg o K (idler_polarization (cs_pm cs)) c cs) /\
+  (forall a, gen_apod_of_cfg o a = apod_of_cfg o a) /\
+  (forall p signal pump cs, gen_poling_of_cfg o K minpos p signal pump cs = poling_of_cfg o K minpos cfg_rejects_bad_period p signal pump cs).
+Proof.
+  exact (fun num o K minpos => conj (gen_crystal_of_cfg_eq num o) (conj (gen_pump_of_cfg_eq num o) (conj (gen_signal_of_cfg_eq num o K)
+        (conj (gen_idler_of_cfg_eq num o K) (conj (gen_apod_of_cfg_eq num o) (gen_poling_of_cfg_eq num o K minpos)))))).
+Qed.
+
 (* ================================================================================================ round trip *)
 (* the generated setup -> configuration conversion IS the unit table *)
 (* (export_rounds_idler_waist_position: whether the code rounds the idler waist position, read off the source; the unit table's
@@ -111,6 +154,23 @@ Proof. exact exported_numbers_four_decimals. Qed.
 
 Theorem C16_round4 : forall x, round4 (round4 x) = round4 x /\ Rabs (round4 x - x) <= / 20000.
 Proof. exact (fun x => conj (round4_idempotent x) (round4_err x)). Qed.
+
+(* binary64 (Flocq) statement for math::sigfigs(x, 4): sigfigs_b64 x = b64 (round_half_away (b64 (x * 10^4)) / 10^4), b64 = round to
+   nearest-even in binary64.  At an EXACT tie (x * 10^4 = k + 1/2) the product is representable and the code rounds away from
+   zero exactly as round4 does; farther than 2^-53 |x * 10^4| from every half-integer (normal range) the binary64 product rounds
+   to the same integer as the exact one.  In both cases the result is the binary64 number nearest to the 4-decimal value
+   round4 x.  _partial: inside the 2^-53-relative band around a tie the two may differ by 1e-4 (the checks skip such inputs). *)
+Theorem C16_sigfigs_b64_tie_partial : forall x (k : Z),
+  (Z.abs (2 * k + 1) < 2 ^ 53)%Z -> x * 10000 = IZR k + / 2 ->
+  b64 (x * 10000) = x * 10000 /\ sigfigs_b64 x = b64 (round4 x).
+Proof. exact sigfigs_b64_tie. Qed.
+
+Theorem C16_sigfigs_b64_away_from_ties_partial : forall x,
+  let p := x * 10000 in
+  bpow radix2 (-1022) <= Rabs p ->
+  (forall z : Z, Rabs (p - (IZR z + / 2)) > / 2 * bpow radix2 (-52) * Rabs p) ->
+  round_half_away (b64 p) = round_half_away p /\ sigfigs_b64 x = b64 (round4 x).
+Proof. exact sigfigs_b64_away_from_ties. Qed.
 
 (* converting the exported configuration again reproduces it exactly (all oracles), for setups whose exported angles are
    not at the wrap-around of their range (there 360.0000 re-imports as 0; Findings/C16_wrap.v) *)
@@ -172,14 +232,21 @@ Print Assumptions C16_pm_doc_examples.
 Print Assumptions C16_pm_printed_is_canonical.
 Print Assumptions C16_pm_polarizations_match_name.
 Print Assumptions C16_pm_parse_sound.
+Print Assumptions C16_pm_compiled_shape.
+Print Assumptions C16_pm_regexes_disjoint.
+Print Assumptions C16_pm_order_irrelevant.
 Print Assumptions C16_pm_inverse.
 Print Assumptions C16_pol_parses.
 Print Assumptions C16_pol_any_case.
+Print Assumptions C16_try_as_spdc_is_generated.
+Print Assumptions C16_helpers_are_generated.
 Print Assumptions C16_as_config_is_unit_table.
 Print Assumptions C16_roundtrip.
 Print Assumptions C16_as_config_is_unit_table_now.
 Print Assumptions C16_exported_numbers_four_decimals.
 Print Assumptions C16_round4.
+Print Assumptions C16_sigfigs_b64_tie_partial.
+Print Assumptions C16_sigfigs_b64_away_from_ties_partial.
 Print Assumptions C16_stable.
 Print Assumptions C16_auto_is_explicit.
 Print Assumptions C16_defaults.
